@@ -30,6 +30,13 @@ def payloadOf : Value → Payload
   | .namespace _ n => .ns n
   | _ => .other
 
+/-- `A::create(key, value)`. -/
+def mkEntry : MapKind → Nat → Payload → Value
+  | .attributes, key, .str s => .attribute key s
+  | .attributes, key, _ => .attribute key []
+  | .namespaces, key, .ns n => .namespace key n
+  | .namespaces, key, _ => .namespace key 0
+
 /-- `(A::key, A::value)` of an entry node. -/
 def entryPair (t : HTree) : Nat × Payload := (entryKey t.value, payloadOf t.value)
 
